@@ -227,7 +227,8 @@ Proof.
 Qed.
 
 Definition add_caller (x : query) (c : N) : query :=
-  {| qid := qid x; qkey := qkey x; qcallers := qcallers x ++ [c]; qvers := qvers x; qcfg := qcfg x |}.
+  {| qid := qid x; qkey := qkey x; qcallers := qcallers x ++ [c]; qvers := qvers x; qcfg := qcfg x;
+     qholders := qholders x |}.
 
 Lemma join_query_some : forall key c l l', join_query key c l = Some l' ->
   exists l1 x l2, l = l1 ++ x :: l2 /\ qkey x = key /\ (forall y, In y l1 -> qkey y <> key) /\
@@ -521,7 +522,8 @@ Proof.
       * intro Hge. apply O4. lia.
     + destruct O as [O1 O2 O3 O4]. pose proof (si_clt s I) as LT. rewrite app_nil_r.
       assert (IN : forall c', In c' (callers_of (pending s ++ [{| qid := next_qid s; qkey := key;
-                        qcallers := [next_cid s]; qvers := []; qcfg := c |}])) <->
+                        qcallers := [next_cid s]; qvers := []; qcfg := c;
+                        qholders := cholders c |}])) <->
                               c' = next_cid s \/ In c' (callers_of (pending s))).
       { intro c'. rewrite callers_of_app. unfold callers_of at 2. cbn. rewrite in_app_iff. cbn. intuition congruence. }
       constructor; cbn [pending next_qid next_cid dead]; intro c'.
